@@ -132,3 +132,24 @@ def root_strip(rep, F, cg):
                     '' if ok else 'mash passes `%s` to Path::join without a sanitizer that removes every leading separator: mash("/a", "//b") escapes "/a"' % describe_operand(B, arg))
         if why:
             o.witness = [why]
+
+
+def join_own(rep, F, cg, rule='JOIN-OWN'):
+    """who-may-call: Path::join replaces the base when its operand is absolute, so only the root-stripping helper may call it"""
+    rep.rule(rule, 'std::path::Path::join (which discards the base when the joined operand is absolute) is called only from path::mash, the helper that strips '
+             'every leading separator first; every other place that combines paths goes through mash (PathBuf::push call sites are listed in the evidence)')
+    n = 0
+    pushes = []
+    for name in cg.names():
+        B = cg.body(name)
+        for i, t in B.calls():
+            c = t.get('callee') or ''
+            if c in ('<std::path::Path>::join', '<std::path::PathBuf>::join'):
+                n += 1
+                ok = name == 'sys::fs::path::mash'
+                rep.add(rule, 'joinown:%s' % name, 'Path::join is called from mash only', ok, B.loc(i),
+                        '' if ok else '%s calls Path::join directly at %s: an operand with a leading separator (e.g. the tail of "~//x") replaces the base instead of being appended' % (name, B.loc(i)))
+            elif c == '<std::path::PathBuf>::push':
+                pushes.append('%s at %s (%s)' % (name, B.loc(i), t['arg_tys'][1] if len(t['arg_tys']) > 1 else '?'))
+    rep.floor(rule, 'Path::join call sites', n, 1)
+    rep.analysed['pathbuf_push_sites'] = pushes
